@@ -60,6 +60,16 @@ def trUpdate (p : TRParams F) (ratio dnorm tau delta rho : F) : F :=
 def geomDelta (delta rho dist : F) : F :=
   o.max (o.min (o.mul (o.lit 1 1) delta) (o.mul (o.lit 5 1) dist)) (o.mul (o.lit 15 1) rho)
 
+/-- `Controller.calculate_ratio`, the decision part: `(ratio, exit flag)` from the predicted and the actual
+    reduction.  `pred_reduction < 0.0` gives EXIT_TR_INCREASE_WARNING (5) with more than one projection,
+    EXIT_TR_INCREASE_ERROR (-2) otherwise; the ratio is `actual_reduction / pred_reduction` in both cases. -/
+def calcRatio (pred actual : F) (nproj : Nat) : F × Option Int :=
+  (o.div actual pred, if o.lt pred (o.lit 0 0) then (if 1 < nproj then some 5 else some (-2)) else none)
+
+/-- solver.py: `if ratio > 0.0:` re-select the point to replace with `skip_kopt=False` (the incumbent's row may
+    be overwritten); otherwise the incumbent's row is protected. -/
+def mayReplaceKopt (ratio : F) : Bool := o.lt (o.lit 0 0) ratio
+
 end Radius
 
 /-! ### interpretation X (IEEE doubles, Python scalar semantics) -/
